@@ -333,7 +333,8 @@ class MinGenSet():
 
             if self.solver.get_model_status() == "kOptimal":
                 genset_sol = self.solver.get_values(self.genset_vars)
-                self._solution = sorted(self.weight_type(genset_sol[i]) for i in range(k))
+                # integer values come back as floats such as 0.9999999999999991: round, do not truncate
+                self._solution = sorted((round(genset_sol[i]) if self.weight_type == int else float(genset_sol[i])) for i in range(k))
                 self._is_solved = True
                 self.solve_statistics = {
                     "solve_time": time.perf_counter() - start_time,
